@@ -347,6 +347,12 @@ OnlyRemovesDecls(N, P, x) ==
 
 \* what the names of Subtree(x) resolve through is still there: every name usable before is usable after
 DedupKeepsUsable(N, P, x) == \A i \in Named(N, x) : NameUsable(N, i) => NameUsable(P, i)
+\* ... and what they resolve through INSIDE the subtree the call was made on is still there: a name that could be written
+\* with the declarations of Subtree(x) alone (the subtree taken on its own, as after detach) still can.  Redundancy is a
+\* matter of the subtree; a binding further up does not make a declaration inside it superfluous.
+CutAt(N, x) == [N EXCEPT ![x].p = 0]
+DedupKeepsSelfContained(N, P, x) ==
+    (N[x].k = "elem" /\ N[x].p # 0) => \A i \in Named(N, x) : NameUsable(CutAt(N, x), i) => NameUsable(CutAt(P, x), i)
 
 
 -----------------------------------------------------------------------------
@@ -492,7 +498,7 @@ Accepts(e, N, cons, o, prevWasSameDedup) ==
              IF CmpTarget(N, x) = 0 THEN o.res = "err" /\ P = N
              ELSE o.res = "ok" /\ CmpOk(N, P, x)
       [] e.op \in {"dedup", "dedup2"} ->
-             /\ o.res = "ok" /\ OnlyRemovesDecls(N, P, x) /\ DedupKeepsUsable(N, P, x)
+             /\ o.res = "ok" /\ OnlyRemovesDecls(N, P, x) /\ DedupKeepsUsable(N, P, x) /\ DedupKeepsSelfContained(N, P, x)
              /\ prevWasSameDedup => P = N
       [] e.op \in {"parse", "parse_fragment"} ->
              \/ o.res = "err" /\ P = N
